@@ -13,7 +13,7 @@
     no next-round view has round 0): a bumped version / incremented round that wrapped is 0. *)
 From Coq Require Import List NArith Arith Bool Lia String Sorting.Sorted.
 From GV Require Import Base.Ints Gen.Math Gen.Kernel Model.Mirror Model.MirrorMgr
-  Proofs.MirrorAuth Proofs.MirrorMgr.
+  Proofs.MirrorAuth Proofs.MirrorChain Proofs.MirrorMgr.
 Import ListNotations.
 Local Open Scope N_scope.
 
@@ -1287,4 +1287,311 @@ Proof.
   intros H1 H2 Hk Hall Hrun Hok l1 a l2 b l3 E.
   destruct (gossip_stream_sorted ih ivs ops s' ios k H1 H2 Hk Hall Hrun Hok _ _ _ _ _ E) as [[X|[X Y]]|[[X Y] _]];
     [left; exact X|right; split; [exact X|lia]|right; split; [exact X|lia]].
+Qed.
+
+(** * The state-machine stream *)
+Lemma mgr_step_sm_src m e :
+  (smm_out (m_sm (mgr_step m e)) = smm_out (m_sm m) \/
+   exists vid, e = EvMark vid (smm_out (m_sm (mgr_step m e)))) /\
+  (smm_jump (m_sm (mgr_step m e)) = smm_jump (m_sm m) \/
+   exists j, smm_jump (m_sm (mgr_step m e)) = Some j /\
+     ((e = EvJump j /\ smm_h (m_sm m) = v_h j /\ smm_r (m_sm m) = sub32 (v_r j) 1) \/
+      (exists vid, e = EvMark vid j /\
+                   (smm_h (m_sm m) < v_h j \/ (smm_h (m_sm m) = v_h j /\ smm_r (m_sm m) < v_r j))))).
+Proof.
+  destruct m as [sm g cm]. destruct e as [vid v|v|v|h]; cbn [mgr_step m_sm].
+  - destruct (vid =? ViewIDVoting); [|destruct (vid =? ViewIDCommitting)]; cbn [m_sm].
+    + destruct (_ && _); cbn; split; try (left; reflexivity). right. exists vid. reflexivity.
+    + destruct ((smm_h sm =? v_h v) && (smm_r sm =? v_r v)); cbn.
+      * split; [right; exists vid; reflexivity|left; reflexivity].
+      * destruct ((smm_h sm <? v_h v) || ((smm_h sm =? v_h v) && (smm_r sm <? v_r v))) eqn:El; cbn.
+        -- split; [left; reflexivity|]. right. exists v. split; [reflexivity|]. right. exists vid. split; [reflexivity|].
+           apply orb_true_iff in El as [El|El]; [left; apply N.ltb_lt; exact El|].
+           apply andb_true_iff in El as [E1 E2]. right. split; [apply N.eqb_eq; exact E1|apply N.ltb_lt; exact E2].
+        -- split; left; reflexivity.
+    + split; left; reflexivity.
+  - split; left; reflexivity.
+  - destruct ((smm_h sm =? v_h v) && (smm_r sm =? sub32 (v_r v) 1)) eqn:El; cbn.
+    + split; [left; reflexivity|]. right. exists v. split; [reflexivity|]. left.
+      apply andb_true_iff in El as [E1 E2]. split; [reflexivity|]. split; [apply N.eqb_eq; exact E1|apply N.eqb_eq; exact E2].
+    + split; left; reflexivity.
+  - split; left; reflexivity.
+Qed.
+
+Lemma fold_mgr_sm_src new : forall m,
+  (smm_out (m_sm (fold_left mgr_step new m)) = smm_out (m_sm m) \/
+   exists vid, In (EvMark vid (smm_out (m_sm (fold_left mgr_step new m)))) new) /\
+  (smm_jump (m_sm (fold_left mgr_step new m)) = smm_jump (m_sm m) \/
+   exists j, smm_jump (m_sm (fold_left mgr_step new m)) = Some j /\
+     ((In (EvJump j) new /\ smm_h (m_sm m) = v_h j /\ smm_r (m_sm m) = sub32 (v_r j) 1) \/
+      (exists vid, In (EvMark vid j) new /\
+                   (smm_h (m_sm m) < v_h j \/ (smm_h (m_sm m) = v_h j /\ smm_r (m_sm m) < v_r j))))).
+Proof.
+  induction new as [|e new IH]; intros m; cbn [fold_left]; [split; left; reflexivity|].
+  destruct (IH (mgr_step m e)) as [Io Ij]. destruct (mgr_step_sm_src m e) as [So Sj].
+  destruct (mgr_step_sm_fixed m e) as (Fh&Fr&_). rewrite Fh, Fr in Ij.
+  split.
+  - destruct Io as [Io|(vid&Io)]; [|right; exists vid; right; exact Io].
+    destruct So as [So|(vid&So)]; [left; congruence|]. right. exists vid. left. rewrite Io. exact So.
+  - destruct Ij as [Ij|(j&Ej&[(I1&I2&I3)|(vid&I1&I2)])].
+    + destruct Sj as [Sj|(j&Ej&[(S1&S2&S3)|(vid&S1&S2)])]; [left; congruence| |].
+      * right. exists j. split; [congruence|]. left. split; [left; exact S1|split; assumption].
+      * right. exists j. split; [congruence|]. right. exists vid. split; [left; exact S1|exact S2].
+    + right. exists j. split; [exact Ej|]. left. split; [right; exact I1|split; assumption].
+    + right. exists j. split; [exact Ej|]. right. exists vid. split; [right; exact I1|exact I2].
+Qed.
+
+Lemma sm_output_src m vv jv sv : sm_output m = Some (vv, jv, sv) ->
+  (forall v, vv = Some v -> v = smm_out m) /\ (forall j, jv = Some j -> smm_jump m = Some j).
+Proof.
+  unfold sm_output. destruct (smm_jump m) as [j0|];
+    repeat match goal with |- context [if ?c then _ else _] => destruct c end;
+    intros E; inversion E; subst; split; intros x Hx; inversion Hx; subst; reflexivity.
+Qed.
+
+Definition later_than (h r : N) (j : view) : Prop := h < v_h j \/ (h = v_h j /\ r < v_r j).
+
+(** [b]: the view the state machine was last given for the entered round (entrance answer or
+    delivery); [JD]: the jump-ahead views delivered since the entrance *)
+Definition SIc (sm : smm) (t : vs3) (b : view) (JD : list view) : Prop :=
+  past (smm_out sm) t /\
+  smm_last sm = v_ver b /\ v_h b = smm_h sm /\ v_r b = smm_r sm /\ past b t /\
+  (samepos b (smm_out sm) -> vq b (smm_out sm) \/ v_ver (smm_out sm) <= v_ver b) /\
+  Forall (fun jd => past jd t) JD /\
+  (forall j, smm_jump sm = Some j ->
+     past j t /\ later_than (smm_h sm) (smm_r sm) j /\ Forall (fun jd => samepos jd j -> vq jd j) JD).
+
+Definition SI (s : mstate) (b : view) (JD : list view) : Prop := SIc (m_sm (ms_m s)) (views (ms_k s)) b JD.
+
+Lemma sub32_pred x : x <> 0 -> x < two32 -> sub32 x 1 < x.
+Proof.
+  unfold sub32, two32. intros H0 Hlt.
+  replace (x + 4294967296 - 1) with ((x - 1) + 1 * 4294967296) by lia.
+  rewrite N.mod_add by lia. rewrite N.mod_small by lia. lia.
+Qed.
+
+Lemma SIc_events m t t' new b JD :
+  Forall ev_ok new -> kinv t -> TR3 t t' new ->
+  SIc (m_sm m) t b JD -> SIc (m_sm (fold_left mgr_step new m)) t' b JD.
+Proof.
+  intros Hok Hk H3 (I1&I2&I3&I4&I5&I6&I7&I8).
+  destruct (H3 Hok Hk) as (K'&S&P&M&Nn&O). rewrite Forall_forall in M, Nn, Hok.
+  destruct (fold_mgr_step_sm_fixed new m) as (Fh&Fr&Fl). destruct (fold_mgr_sm_src new m) as (Fo&Fj).
+  unfold SIc. rewrite Fh, Fr, Fl.
+  split; [destruct Fo as [E|(vid&Hin)]; [rewrite E; apply P, I1|exact (proj2 (Nn _ Hin))]|].
+  split; [exact I2|]. split; [exact I3|]. split; [exact I4|]. split; [apply P, I5|].
+  split; [destruct Fo as [E|(vid&Hin)]; [rewrite E; exact I6|]|].
+  { intros Hs. left. apply vqs_vq. apply (proj2 (M _ Hin)); assumption. }
+  split; [eapply Forall_impl; [|exact I7]; intros jd; apply P|].
+  intros j Hj. destruct Fj as [E|(j0&Ej&Hsrc)].
+  - rewrite E in Hj. destruct (I8 j Hj) as (A&B&C). split; [apply P, A|split; assumption].
+  - rewrite Ej in Hj. inversion Hj; subst j0. destruct Hsrc as [(Hin&Hh&Hr)|(vid&Hin&Hlater)].
+    + pose proof (Nn _ Hin) as [Np Nr]. pose proof (Hok _ Hin) as H0. cbn [ev_ok] in H0.
+      split; [exact Np|]. split; [right; split; [exact Hh|rewrite Hr; apply sub32_pred; assumption]|].
+      eapply Forall_impl; [|exact I7]. intros jd Hjd Hs. apply (M _ Hin); assumption.
+    + pose proof (Nn _ Hin) as [_ Np].
+      split; [exact Np|]. split; [exact Hlater|].
+      eapply Forall_impl; [|exact I7]. intros jd Hjd Hs. apply vqs_vq. apply (proj2 (M _ Hin)); assumption.
+Qed.
+
+Definition sm_vrv (io : mio) : list view := match io with IOSM (Some v) _ => [v] | _ => [] end.
+Definition sm_jmp (io : mio) : list view := match io with IOSM _ (Some j) => [j] | _ => [] end.
+
+Fixpoint jumps_ok (JD : list view) (l : list view) : Prop :=
+  match l with
+  | [] => True
+  | j :: t => Forall (fun jd => samepos jd j -> vq jd j) JD /\ jumps_ok (j :: JD) t
+  end.
+
+(** one state-machine read that delivered something *)
+Lemma smread_SI sm t b JD vv jv sv :
+  SIc sm t b JD -> sm_output sm = Some (vv, jv, sv) ->
+  let JD' := match jv with Some j => j :: JD | None => JD end in
+  (forall j, jv = Some j -> later_than (smm_h sm) (smm_r sm) j /\ Forall (fun jd => samepos jd j -> vq jd j) JD) /\
+  match vv with
+  | Some v => vqs b v /\ SIc (sm_mark_sent sm sv) t v JD'
+  | None => SIc (sm_mark_sent sm sv) t b JD'
+  end.
+Proof.
+  intros (I1&I2&I3&I4&I5&I6&I7&I8) Ho.
+  destruct (sm_output_spec _ _ _ _ Ho) as [Sv Sn]. destruct (sm_output_src _ _ _ _ Ho) as [Ov Oj].
+  assert (HJ : forall j, jv = Some j -> past j t /\ later_than (smm_h sm) (smm_r sm) j /\ Forall (fun jd => samepos jd j -> vq jd j) JD)
+    by (intros j Ej; apply I8, Oj, Ej).
+  assert (HJD : Forall (fun jd => past jd t) (match jv with Some j => j :: JD | None => JD end)).
+  { destruct jv as [j|]; [|exact I7]. constructor; [apply (HJ j eq_refl)|exact I7]. }
+  split; [intros j Ej; destruct (HJ j Ej) as (_&A&B); split; assumption|].
+  destruct vv as [v|].
+  - destruct (Sv v eq_refl) as (Vh&Vr&Vlt&Vsv). pose proof (Ov v eq_refl) as Vo. subst v.
+    assert (Hs : samepos b (smm_out sm)) by (split; congruence).
+    assert (Q : vqs b (smm_out sm)).
+    { destruct (I6 Hs) as [[_ Q]|Q]; [split; [lia|exact Q]|lia]. }
+    split; [exact Q|]. unfold SIc, sm_mark_sent. cbn [smm_out smm_last smm_h smm_r smm_jump].
+    split; [exact I1|]. split; [exact Vsv|]. split; [exact Vh|]. split; [exact Vr|]. split; [exact I1|].
+    split; [intros _; left; apply vq_refl|]. split; [exact HJD|]. intros j Ej; discriminate.
+  - unfold SIc, sm_mark_sent. cbn [smm_out smm_last smm_h smm_r smm_jump].
+    split; [exact I1|]. split; [rewrite (Sn eq_refl); exact I2|]. split; [exact I3|]. split; [exact I4|]. split; [exact I5|].
+    split; [exact I6|]. split; [exact HJD|]. intros j Ej; discriminate.
+Qed.
+
+Lemma epoch_no_restart ops : forallb epoch_op ops = true -> forallb no_restart ops = true.
+Proof.
+  induction ops as [|o ops IH]; cbn [forallb]; [reflexivity|]. intros H. apply andb_true_iff in H as [A B].
+  rewrite (IH B), andb_true_r. destruct o; try reflexivity. exact A.
+Qed.
+
+Lemma sm_chain : forall ops s s' ios b JD,
+  forallb epoch_op ops = true -> mrun s ops = Ok (s', ios) ->
+  Forall ev_ok (st_ev (ms_k s')) ->
+  kinv (views (ms_k s)) -> SI s b JD ->
+  chain_from vqs b (flat_map sm_vrv ios) /\
+  Forall (later_than (smm_h (sm_of s)) (smm_r (sm_of s))) (flat_map sm_jmp ios) /\
+  jumps_ok JD (flat_map sm_jmp ios).
+Proof.
+  induction ops as [|o rest IH]; intros s s' ios b JD Hall; cbn [mrun].
+  - intros E; inversion E; subst. intros _ _ _. cbn. repeat split. constructor.
+  - cbn [forallb] in Hall. apply andb_true_iff in Hall as [Ho Hr].
+    destruct (mstep s o) as [[[s1 r] io]|] eqn:Hs; [|discriminate].
+    destruct (mrun s1 rest) as [[s2 ios2]|] eqn:Hm; [|discriminate].
+    intros E; inversion E; subst. intros Hok Hkinv HS. cbn [flat_map].
+    destruct (mrun_ext _ _ _ _ (epoch_no_restart _ Hr) Hm) as (n2&E2). rewrite E2 in Hok. apply ok_prefix in Hok as [Hok1 Hok2].
+    assert (Hfin : Forall ev_ok (st_ev (ms_k s'))) by (rewrite E2; apply Forall_app; split; assumption).
+    destruct o as [[o| |]|h0 r0| |]; cbn [epoch_op is_restart_x negb] in Ho; try discriminate.
+    + destruct (mk_step_facts _ _ _ _ _ Hs) as (new&He&H3&Hm1&Hio). subst io. cbn [sm_vrv sm_jmp app].
+      rewrite He in Hok1. apply ok_prefix in Hok1 as [Hok0 Hoknew].
+      destruct (H3 Hoknew Hkinv) as (K1&_).
+      assert (HS1 : SI s1 b JD) by (unfold SI; rewrite Hm1; exact (SIc_events (ms_m s) _ _ new b JD Hoknew Hkinv H3 HS)).
+      destruct (fold_mgr_step_sm_fixed new (ms_m s)) as (Fh&Fr&_).
+      replace (smm_h (sm_of s)) with (smm_h (sm_of s1)) by (unfold sm_of; rewrite Hm1; exact Fh).
+      replace (smm_r (sm_of s)) with (smm_r (sm_of s1)) by (unfold sm_of; rewrite Hm1; exact Fr).
+      apply (IH s1 s' ios2 b JD Hr Hm Hfin K1 HS1).
+    + revert Hs. cbn [mstep]. destruct (sm_output _) as [[[vv jv] sv]|] eqn:Hso.
+      * intros E1; inversion E1; subst.
+        destruct (smread_SI _ _ _ _ _ _ _ HS Hso) as [HJ HV]. cbv zeta in HV.
+        match goal with Hm' : mrun ?S1 rest = _ |- _ => set (s1 := S1) in * end.
+        assert (Eh : smm_h (sm_of s1) = smm_h (sm_of s) /\ smm_r (sm_of s1) = smm_r (sm_of s)) by (split; reflexivity).
+        destruct Eh as [Eh Er].
+        destruct vv as [v|]; [destruct HV as [Q HS1]|]; cbn [sm_vrv app chain_from].
+        -- destruct (IH s1 s' ios2 v _ Hr Hm Hfin Hkinv HS1) as (C1&C2&C3). rewrite Eh, Er in C2.
+           split; [split; [exact Q|exact C1]|].
+           destruct jv as [j|]; cbn [sm_jmp app jumps_ok].
+           ++ destruct (HJ j eq_refl) as [J1 J2]. split; [constructor; assumption|split; assumption].
+           ++ split; assumption.
+        -- destruct (IH s1 s' ios2 b _ Hr Hm Hfin Hkinv HV) as (C1&C2&C3). rewrite Eh, Er in C2.
+           split; [exact C1|].
+           destruct jv as [j|]; cbn [sm_jmp app jumps_ok].
+           ++ destruct (HJ j eq_refl) as [J1 J2]. split; [constructor; assumption|split; assumption].
+           ++ split; assumption.
+      * intros E1; inversion E1; subst. cbn [sm_vrv sm_jmp app]. apply (IH _ s' ios2 b JD Hr Hm Hfin Hkinv HS).
+    + revert Hs. cbn [mstep]. destruct (g_output _) as [[[[c v] n] nl]|].
+      * intros E1; inversion E1; subst. cbn [sm_vrv sm_jmp app]. apply (IH _ s' ios2 b JD Hr Hm Hfin Hkinv HS).
+      * intros E1; inversion E1; subst. cbn [sm_vrv sm_jmp app]. apply (IH _ s' ios2 b JD Hr Hm Hfin Hkinv HS).
+Qed.
+
+(** ** Reaching an entrance *)
+Lemma past_get3 t vid : kinv t -> past (get3 t vid) t.
+Proof.
+  destruct t as [[c v] n]. intros (K1&K2&K3&K4&K5&K6&K7&K8). unfold get3, past.
+  destruct (vid =? ViewIDVoting); [|destruct (vid =? ViewIDCommitting)].
+  - split; [left; unfold pos_lt; lia|]. split; [intros [X _]; exfalso; lia|]. split; [intros _; apply vq_refl|intros [_ X]; exfalso; lia].
+  - split; [left; unfold pos_lt; lia|]. split; [intros _; apply vq_refl|]. split; [intros [X _]; exfalso; lia|intros [X _]; exfalso; lia].
+  - split; [right; split; reflexivity|]. split; [intros [X _]; exfalso; lia|]. split; [intros [_ X]; exfalso; lia|intros _; apply vq_refl].
+Qed.
+
+Lemma past_below_get3 a t vid : past a t -> samepos a (get3 t vid) -> vq a (get3 t vid).
+Proof.
+  destruct t as [[c v] n]. intros (A1&A2&A3&A4). unfold get3.
+  destruct (vid =? ViewIDVoting); [exact A3|destruct (vid =? ViewIDCommitting); [exact A2|exact A4]].
+Qed.
+
+(** what holds at every state of a history: position facts of the kernel and that the view kept
+    for the state machine is a view of the past *)
+Definition SG (s : mstate) : Prop := kinv (views (ms_k s)) /\ past (smm_out (sm_of s)) (views (ms_k s)).
+
+Lemma sg_run : forall ops s s' ios,
+  forallb no_restart ops = true -> mrun s ops = Ok (s', ios) ->
+  Forall ev_ok (st_ev (ms_k s')) -> SG s -> SG s'.
+Proof.
+  induction ops as [|o rest IH]; intros s s' ios Hall; cbn [mrun].
+  - intros E; inversion E; subst. auto.
+  - cbn [forallb] in Hall. apply andb_true_iff in Hall as [Ho Hr].
+    destruct (mstep s o) as [[[s1 r] io]|] eqn:Hs; [|discriminate].
+    destruct (mrun s1 rest) as [[s2 ios2]|] eqn:Hm; [|discriminate].
+    intros E; inversion E; subst. intros Hok [Hkinv Hout].
+    destruct (mrun_ext _ _ _ _ Hr Hm) as (n2&E2). pose proof Hok as Hfin. rewrite E2 in Hok. apply ok_prefix in Hok as [Hok1 Hok2].
+    apply (IH s1 s' ios2 Hr Hm Hfin).
+    destruct o as [[o| |]|h0 r0| |]; cbn [no_restart is_restart_x negb] in Ho; try discriminate.
+    + destruct (mk_step_facts _ _ _ _ _ Hs) as (new&He&H3&Hm1&Hio).
+      rewrite He in Hok1. apply ok_prefix in Hok1 as [Hok0 Hoknew].
+      destruct (H3 Hoknew Hkinv) as (K1&S&P&M&Nn&O). rewrite Forall_forall in Nn.
+      split; [exact K1|]. unfold sm_of. rewrite Hm1.
+      destruct (fold_mgr_sm_src new (ms_m s)) as [[E1|(vid&Hin)] _]; [rewrite E1; apply P, Hout|exact (proj2 (Nn _ Hin))].
+    + revert Hs. cbn [mstep]. unfold bind. destruct (find_view _ _ _) as [[vid st]|]; [|discriminate].
+      destruct (st =? ViewFound); [intros E1; inversion E1; subst; split; assumption|].
+      destruct (st =? ViewBeforeCommitting); [|discriminate].
+      destruct (hdr_get _ _) as [[x cp]|]; [intros E1; inversion E1; subst; split; assumption|discriminate].
+    + revert Hs. cbn [mstep]. destruct (sm_output _) as [[[vv jv] sv]|]; intros E1; inversion E1; subst; split; assumption.
+    + revert Hs. cbn [mstep]. destruct (g_output _) as [[[[c v] n] nl]|]; intros E1; inversion E1; subst; split; assumption.
+Qed.
+
+Lemma SG_init ih ivs : 1 <= ih -> ih < two64 -> SG (ms_init ih ivs).
+Proof.
+  intros H1 H2. pose proof (kinv_init ih ivs H1 H2) as Hk. split; [exact Hk|].
+  pose proof (fold_mgr_sm_src (st_ev (init_state ih ivs)) mgrs0) as [Fo _].
+  assert (G : forall o, (o = smm_out (m_sm mgrs0) \/ exists vid, In (EvMark vid o) (st_ev (init_state ih ivs))) ->
+                        past o (views (init_state ih ivs))).
+  { intros o [E|(vid&Hin)].
+    - subst o. unfold past, views, init_state, pos_lt, samepos. cbn.
+      split; [left; left; lia|]. split; [intros _; apply vq_refl|]. split; intros [X _]; exfalso; lia.
+    - cbn [init_state st_ev] in Hin. destruct Hin as [Hin|[Hin|[]]]; inversion Hin as [[Ev Eo]].
+      + exact (past_get3 _ ViewIDVoting Hk).
+      + exact (past_get3 _ ViewIDNextRound Hk). }
+  apply G. exact Fo.
+Qed.
+
+Lemma enter_SI s h r s1 c v0 :
+  SG s -> mstep s (MEnter h r) = Ok (s1, c, IOEnterView v0) ->
+  ms_k s1 = ms_k s /\ smm_h (sm_of s1) = h /\ smm_r (sm_of s1) = r /\ v_h v0 = h /\ v_r v0 = r /\ SI s1 v0 [].
+Proof.
+  intros [Hk Hout]. unfold sm_of in Hout. cbn [mstep]. unfold bind. destruct (find_view _ _ _) as [[vid st]|] eqn:Hfv; [|discriminate].
+  destruct (st =? ViewFound) eqn:Hst.
+  - intros E; inversion E; subst. apply N.eqb_eq in Hst.
+    assert (Hpos : v_h (get_view (ms_k s) vid) = h /\ v_r (get_view (ms_k s) vid) = r).
+    { pose proof Hk as Hk'. unfold views in Hk'. destruct Hk' as (K1&K2&K3&K4&K5&K6&K7&K8).
+      destruct (MirrorChain.find_view_found _ _ _ _ _ Hfv Hst) as [(A&B&C)|[(A&B&C)|(A&B&C&D)]]; cbn in B, C; subst vid.
+      - unfold get_view. cbn. split; congruence.
+      - unfold get_view. cbn. split; [congruence|]. rewrite C. unfold wrap32. rewrite K2. symmetry. apply N.mod_small. lia.
+      - unfold get_view. cbn. split; congruence. }
+    destruct Hpos as [Ph Pr]. cbn [ms_k]. unfold sm_of. cbn [ms_m m_sm smm_h smm_r].
+    split; [reflexivity|]. split; [reflexivity|]. split; [reflexivity|]. split; [exact Ph|]. split; [exact Pr|].
+    unfold SI, SIc. cbn [ms_m m_sm ms_k smm_out smm_last smm_h smm_r smm_jump].
+    rewrite get_view_get3 in *.
+    split; [exact Hout|]. split; [reflexivity|]. split; [exact Ph|]. split; [exact Pr|].
+    split; [apply past_get3; exact Hk|].
+    split; [|split; [constructor|intros j Ej; discriminate]].
+    intros [S1 S2]. right. apply (past_below_get3 _ _ vid Hout). split; [symmetry; exact S1|symmetry; exact S2].
+  - destruct (st =? ViewBeforeCommitting); [|discriminate].
+    destruct (hdr_get _ _) as [[x cp]|]; [intros E; inversion E|discriminate].
+Qed.
+
+Theorem sm_stream_grows ih ivs ops0 s0 ios0 h r s1 c v0 ops s2 ios :
+  1 <= ih -> ih < two64 ->
+  forallb no_restart ops0 = true -> mrun (ms_init ih ivs) ops0 = Ok (s0, ios0) ->
+  mstep s0 (MEnter h r) = Ok (s1, c, IOEnterView v0) ->
+  forallb epoch_op ops = true -> mrun s1 ops = Ok (s2, ios) ->
+  Forall ev_ok (st_ev (ms_k s2)) ->
+  v_h v0 = h /\ v_r v0 = r /\
+  chain_from vqs v0 (flat_map sm_vrv ios) /\
+  Forall (later_than h r) (flat_map sm_jmp ios) /\
+  jumps_ok [] (flat_map sm_jmp ios).
+Proof.
+  intros H1 H2 Hall0 Hrun0 Hent Hall Hrun Hok.
+  destruct (mrun_ext _ _ _ _ (epoch_no_restart _ Hall) Hrun) as (n2&E2).
+  assert (Hok0 : Forall ev_ok (st_ev (ms_k s0))).
+  { destruct (mstep_ext s0 (MEnter h r) s1 c _ eq_refl Hent) as (n1&E1).
+    rewrite E2, E1 in Hok. apply ok_prefix in Hok as [Hok _]. apply ok_prefix in Hok as [Hok _]. exact Hok. }
+  pose proof (sg_run _ _ _ _ Hall0 Hrun0 Hok0 (SG_init ih ivs H1 H2)) as HSG.
+  destruct (enter_SI _ _ _ _ _ _ HSG Hent) as (Ek&Eh&Er&Vh&Vr&HSI).
+  assert (Hk1 : kinv (views (ms_k s1))) by (rewrite Ek; apply HSG).
+  destruct (sm_chain ops s1 s2 ios v0 [] Hall Hrun Hok Hk1 HSI) as (C1&C2&C3).
+  rewrite Eh, Er in C2. repeat split; assumption.
 Qed.
